@@ -1247,11 +1247,52 @@ fn gen_decimal_value(rng: &mut Rng, p: u8) -> i256 {
 }
 const I32B: [i64; 12] = [0, 1, -1, 63, 64, -64, -65, 8191, 8192, i32::MAX as i64, i32::MIN as i64, 1 << 20];
 const I64B: [i64; 18] = [0, 1, -1, 63, 64, -64, -65, 1 << 31, -(1 << 31) - 1, (1 << 55) - 1, 1 << 55, 1 << 56, -(1 << 56), (1 << 62), -(1 << 62) - 1, i64::MAX, i64::MIN, i64::MAX - 1];
+thread_local! {
+    static MAX_SIZE: std::cell::Cell<usize> = const { std::cell::Cell::new(0) };
+}
+fn size_tag() -> &'static str {
+    match MAX_SIZE.with(|m| m.replace(0)) {
+        0..=30 => "sz:small",
+        31..=66 => "sz:31-66",
+        67..=130 => "sz:127-130",
+        131..=258 => "sz:255-258",
+        259..=514 => "sz:511-514",
+        515..=1026 => "sz:1023-1026",
+        1027..=5000 => "sz:4k",
+        _ => "sz:64k",
+    }
+}
+/// byte length of a string / bytes value: short, or on a size class crossing a buffer / varint-length boundary
+/// (31..33, 63..66 = 1→2 byte length prefix, 127..130, 255..258, 511..514, 1023..1026, 8191..8193 = 2→3 byte
+/// prefix), rarely ~4 KiB / ~64 KiB
+fn size_class(rng: &mut Rng) -> usize {
+    let n = match rng.below(1000) {
+        0..=599 => *rng.pick(&[0usize, 1, 2, 3, 5]),
+        600..=719 => 63 + rng.usize(4),
+        720..=789 => 31 + rng.usize(3),
+        790..=859 => 127 + rng.usize(4),
+        860..=919 => 255 + rng.usize(4),
+        920..=954 => 511 + rng.usize(4),
+        955..=984 => 1023 + rng.usize(4),
+        985..=992 => 4094 + rng.usize(5),
+        993..=996 => 8191 + rng.usize(3),
+        _ => 65534 + rng.usize(4),
+    };
+    MAX_SIZE.with(|m| m.set(m.get().max(n)));
+    n
+}
+/// a string of exactly `size_class` bytes, ASCII only or mixed with 2/3/4-byte characters
 fn gen_string(rng: &mut Rng) -> Vec<u8> {
-    let n = *rng.pick(&[0usize, 1, 2, 5, 63, 64, 65, 130]);
+    let target = size_class(rng);
+    let ascii = rng.bool();
     let mut s = String::new();
-    for _ in 0..n {
-        s.push(*rng.pick(&['a', ',', '"', '\n', '\r', '\\', '\u{0}', '\u{7f}', 'é', '\u{ffff}', '😀', ' ', '\u{10ffff}']));
+    while s.len() < target {
+        let c = *rng.pick(&['a', ',', '"', '\n', '\r', '\\', '\u{0}', '\u{7f}', 'é', '\u{ffff}', '😀', ' ', '\u{10ffff}']);
+        if (ascii && !c.is_ascii()) || s.len() + c.len_utf8() > target {
+            s.push('a');
+        } else {
+            s.push(c);
+        }
     }
     s.into_bytes()
 }
@@ -1265,7 +1306,7 @@ fn gen_value(rng: &mut Rng, s: &S, budget: &mut i64) -> V {
         S::Float => V::Float(if rng.chance(1, 4) { *rng.pick(&[0u32, 0x8000_0000, 0x7f80_0000, 0xff80_0000, 0x7fc0_0001, 1, 0x3f80_0000]) } else { rng.next_u64() as u32 }),
         S::Double => V::Double(if rng.chance(1, 4) { *rng.pick(&[0u64, 1 << 63, 0x7ff0_0000_0000_0000, 0x7ff8_0000_0000_0001, 1, 0x3ff0_0000_0000_0000]) } else { rng.next_u64() }),
         S::Bytes => {
-            let n = *rng.pick(&[0usize, 1, 3, 63, 64, 200]);
+            let n = size_class(rng);
             V::Bytes(rng.bytes(n))
         }
         S::Str => V::Str(gen_string(rng)),
@@ -1289,11 +1330,14 @@ fn gen_value(rng: &mut Rng, s: &S, budget: &mut i64) -> V {
         }
         S::Rec(fs) => V::Rec(fs.iter().map(|f| gen_value(rng, f, budget)).collect()),
         S::Arr(i) => {
-            let n = if *budget < 0 { 0 } else { *rng.pick(&[0usize, 0, 1, 2, 3, 5]) };
+            // element counts: tiny, or around 64 / 128 / 256 (1→2 byte block count at 64) for scalar items
+            let scalar = !matches!(**i, S::Arr(_) | S::Map(_) | S::Rec(_) | S::Union(_) | S::Str | S::Bytes);
+            let n = if *budget < 0 { 0 } else if scalar && rng.chance(1, 8) { let c = *rng.pick(&[63usize, 64, 65, 127, 128, 129, 255, 256, 257]); MAX_SIZE.with(|m| m.set(m.get().max(c))); c } else { *rng.pick(&[0usize, 0, 1, 2, 3, 5]) };
             V::Arr((0..n).map(|_| gen_value(rng, i, budget)).collect())
         }
         S::Map(i) => {
-            let n = if *budget < 0 { 0 } else { *rng.pick(&[0usize, 0, 1, 2, 3]) };
+            let scalar = !matches!(**i, S::Arr(_) | S::Map(_) | S::Rec(_) | S::Union(_) | S::Str | S::Bytes);
+            let n = if *budget < 0 { 0 } else if scalar && rng.chance(1, 12) { let c = *rng.pick(&[63usize, 64, 65, 127, 128, 129]); MAX_SIZE.with(|m| m.set(m.get().max(c))); c } else { *rng.pick(&[0usize, 0, 1, 2, 3]) };
             V::Map((0..n).map(|j| (format!("k{}{}", j, String::from_utf8(gen_string(rng)).unwrap().chars().take(3).collect::<String>()).into_bytes(), gen_value(rng, i, budget))).collect())
         }
     }
@@ -1453,8 +1497,9 @@ fn main() {
             // at construction time (SchemaError / NYI / InvalidArgument) is counted and re-drawn
             let mut tries = 0;
             loop {
+                MAX_SIZE.with(|m| m.set(0));
                 let (line, tags) = gen_case(&mut rng);
-                let tags = format!("{}{}", tags, kf_tags(&line));
+                let tags = format!("{}{} {}", tags, kf_tags(&line), size_tag());
                 if std::env::var("VERIF_TRACE").is_ok() {
                     eprintln!("{}", line);
                 }
